@@ -1,5 +1,6 @@
 """C01 - parent and children links always describe one consistent forest."""
 import json
+import zlib
 
 from lib import gen
 from props import mutcommon as mc
@@ -29,7 +30,7 @@ def gen_and_run(tier, seed):
     # faulted variants: classes rotate over the cases to keep the volume down in the quick tier
     pool = list(zip(base, obs0))
     if tier == "quick":
-        pool = [x for i, x in enumerate(pool) if i % 5 == (hash(json.dumps(x[0]["op"])) % 5)]
+        pool = [x for i, x in enumerate(pool) if i % 5 == (zlib.crc32(json.dumps(x[0]["op"]).encode()) % 5)]
     fc = mc.expand_faults([c for c, _ in pool], [o for _, o in pool], rng, persistent=False, doubles=0.15)
     # persistent vetoes: every (pre/post hook kind, node) pair
     pers = []
